@@ -487,7 +487,20 @@ impl World {
         if let Some(port) = peer_port(fd) {
             return self.clients.borrow().iter().position(|c| c.port == port && port != 0);
         }
-        peek_id(fd)
+        let id = peek_id(fd);
+        if let Some(i) = id {
+            let n = self.clients.borrow().len();
+            if i >= n {
+                let mut buf = [0u8; 8];
+                let got = unsafe { libc::recv(fd, buf.as_mut_ptr() as *mut libc::c_void, 8, libc::MSG_PEEK | libc::MSG_DONTWAIT) };
+                let mut ty: libc::c_int = 0;
+                let mut len = std::mem::size_of::<libc::c_int>() as libc::socklen_t;
+                unsafe { libc::getsockopt(fd, libc::SOL_SOCKET, libc::SO_DOMAIN, &mut ty as *mut _ as *mut libc::c_void, &mut len) };
+                self.rec(Rec::Machinery(format!("accepted stream fd {fd} carries id {i} but only {n} clients exist (peeked {got} bytes {:?}, socket domain {ty}, listeners {:?})", &buf, self.cfg.listeners)));
+                return None;
+            }
+        }
+        id
     }
 
     pub fn n_clients(&self) -> usize {
